@@ -414,6 +414,34 @@ def graph_program(rng, n=None):
     return prog
 
 
+def cyclic_prop_program(rng):
+    """Dense positive cycles among propositional atoms, several queries (cycle breaking reuse shapes)."""
+    dense = rng.random() < 0.6
+    nf = rng.randint(2, 4 if dense else 5)
+    facts = [A("f%d" % i) for i in range(nf)]
+    prog = [("ad", [("p%d" % (i + 1), facts[i])], []) for i in range(nf)]
+    nd = rng.randint(4, 6) if dense else rng.randint(3, 5)
+    ders = [A("d%d" % i) for i in range(nd)]
+    for d in ders:
+        for _ in range(rng.randint(2, 4) if dense else rng.randint(1, 3)):
+            body = []
+            for _ in range(rng.randint(1, 2)):
+                if rng.random() < 0.6:
+                    body.append(P(rng.choice(ders)))
+                else:
+                    body.append((rng.choice(facts), (not dense) and rng.random() < 0.15))
+            body = [l for l in body if not l[1]] + [l for l in body if l[1]]
+            prog.append(("rule", d, body))
+    qs = list(ders)
+    rng.shuffle(qs)
+    for q in qs[: (nd if dense else rng.randint(2, nd))]:
+        prog.append(("query", q))
+    if not dense and rng.random() < 0.3:
+        rest = [d for d in ders if ("query", d) not in prog] or [rng.choice(facts)]
+        prog.append(("evidence", rng.choice(rest), rng.random() < 0.6))
+    return prog
+
+
 def generate(seed, idx, **kw):
     rng0 = random.Random("%s/%s/family" % (seed, idx))
     if kw.pop("graphs", True) and rng0.random() < 0.2:
